@@ -1,8 +1,10 @@
 package main
 
 import (
+	"bufio"
 	"bytes"
 	"fmt"
+	"io"
 	"math/rand"
 	"os"
 	"path/filepath"
@@ -216,7 +218,6 @@ func checkC18(r *mon.Run) {
 	r.Rule = "boot numbers: all 65536, in in-memory stores whose BootOrder holds 0,1,2,255,4096 shuffled entries and whose Boot#### variables are named by the reference (4 upper-case hex digits), through the object API and the legacy efi.GetBootOrder/GetBootEntry; the captured tests/data/boot* variables; load options: 1..6 nodes of PCI/ACPI/HD(MBR,GPT)/file-path/firmware-file/USB + end node with arbitrary field values, descriptions incl. empty and non-BMP, optional data; decoded fields vs the independent encoder, HD/File Format() vs the UEFI text form. distinct = boot numbers + distinct node-kind sequences"
 	r.Assume("text form per UEFI §10.6.1.6 / edk2: HD(part,GPT,<EFI GUID>,0xstart,0xsize), HD(part,MBR,0x%08x,0xstart,0xsize); File(<path>) as the repository's own test expects; generated HD nodes keep format and signature type consistent and partition >= 1")
 	useFakeEfivarsDir()
-	minimal, _ := refdev.LoadOption{Attributes: 1, Description: ""}.Encode()
 
 	type ordStore struct{ nums []int }
 	var stores []ordStore
@@ -241,7 +242,9 @@ func checkC18(r *mon.Run) {
 		var bo []byte
 		for _, n := range st.nums {
 			bo = append(bo, byte(n), byte(n>>8))
-			files[varPath(bootName(n), globalGUID)] = withAttrs(7, minimal)
+			// every entry describes itself, so a lookup that lands on another variable is noticed
+			own, _ := refdev.LoadOption{Attributes: 1, Description: bootName(n)}.Encode()
+			files[varPath(bootName(n), globalGUID)] = withAttrs(7, own)
 		}
 		files[varPath("BootOrder", globalGUID)] = withAttrs(7, bo)
 		// object API
@@ -271,6 +274,10 @@ func checkC18(r *mon.Run) {
 			var err error
 			if p := tryP(func() { lo, err = e.GetBootEntry(names[i]) }); p != "" || err != nil || lo == nil {
 				r.Violation("C18|bootentry|unresolved", fmt.Sprintf("name %q returned by boot-order decoding does not resolve although the variable exists: %v %s", names[i], err, p), map[string]any{"number": n})
+				continue
+			}
+			if lo.Description != want {
+				r.Violation("C18|bootentry|wrong-entry", fmt.Sprintf("GetBootEntry(%q) returned the entry described %q", names[i], lo.Description), map[string]any{"number": n})
 				continue
 			}
 			if !seenNum[n] {
@@ -308,6 +315,10 @@ func checkC18(r *mon.Run) {
 				var err error
 				if p := tryP(func() { lo, err = efi.GetBootEntry(lnames[i]) }); p != "" || err != nil || lo == nil {
 					r.Violation("C18|legacy-bootentry|unresolved", fmt.Sprintf("legacy GetBootEntry(%q): %v %s", lnames[i], err, p), map[string]any{"number": n})
+					break
+				}
+				if lo.Description != want {
+					r.Violation("C18|legacy-bootentry|wrong-entry", fmt.Sprintf("legacy GetBootEntry(%q) returned the entry described %q", lnames[i], lo.Description), map[string]any{"number": n})
 					break
 				}
 				r.Count("legacy_boot_numbers_resolved", 1)
@@ -377,6 +388,33 @@ func checkC18(r *mon.Run) {
 		if k, msg := compareLoadOption(&lo, o, pl); k != "" {
 			r.Violation("C18|loadoption|"+k, msg, replay)
 			return
+		}
+		// the device path on its own, through readers that are not *bytes.Buffer
+		var pathBytes []byte
+		for _, n := range o.Nodes {
+			pathBytes = append(pathBytes, n.Encode()...)
+		}
+		pathBytes = append(pathBytes, refdev.Node{Kind: "end"}.Encode()...)
+		for _, rk := range []string{"bytes.Reader", "plain-reader", "bufio"} {
+			var src io.Reader = bytes.NewReader(pathBytes)
+			switch rk {
+			case "plain-reader":
+				src = &pullCounter{r: bytes.NewReader(pathBytes)}
+			case "bufio":
+				src = bufio.NewReader(bytes.NewReader(pathBytes))
+			}
+			var nodes []device.EFIDevicePaths
+			var perr error
+			if p := tryP(func() { nodes, perr = device.ParseDevicePath(src) }); p != "" || perr != nil {
+				r.Violation("C18|devicepath|rejected-via-"+rk, fmt.Sprintf("ParseDevicePath through a %s rejects a well-formed path (%v): %v %s", rk, kinds, perr, p), replay)
+				return
+			}
+			lo2 := device.EFILoadOption{Attributes: lo.Attributes, FilePathListLength: lo.FilePathListLength, Description: lo.Description, FilePath: nodes}
+			if k, msg := compareLoadOption(&lo2, o, pl); k != "" {
+				r.Violation("C18|devicepath|"+k+"-via-"+rk, msg, replay)
+				return
+			}
+			r.Count("device_paths_via_"+rk, 1)
 		}
 		r.Count("load_options_decoded", 1)
 		for _, k := range kinds {
